@@ -184,6 +184,17 @@ CHECKS = {
         "the identical str and otherwise a quoted form that decodes to s (modulo ODL white-space folding) or raises "
         "ValueError. Outside: longer free strings, dateutil (absent).",
    ref='5 (C17)', technique='symbolic execution (symx) of pvl.decoder/token/encoder with z3 deciding every branch; bounded string length'),
+ 'C18': dict(
+   text="Bounded symbolic execution of the real loaders (PVL, ODL, PDS3 configurations and the default one) built "
+        "with substitute classes: real_cls = a Decimal-like class recording the exact text it receives, quantity_cls, "
+        "module/group/object subclasses. One real number of 4 (quick) / 7 shapes with SYMBOLIC digits (trailing zeros, "
+        "exponent forms, '.dd', 'd.') at 7 kinds of position: top level, sequence element, set element, nested "
+        "sequence, quantity magnitude, quantity inside a sequence, inside a group inside an object, with integers "
+        "beside it. Assertions: every real is the substitute with recorded text == the lexeme; every value-with-"
+        "units is the substitute quantity; every container is the substitute class; integers are int; erasing the "
+        "substitutes gives exactly the default result; supplying the substitutes does not change acceptance. "
+        "Outside: several reals per label, other quantity libraries.",
+   ref='5 (C18)', technique='symbolic execution (symx) of parser/decoder with substitute classes on symbolic real lexemes; z3'),
 }
 NA_REASON = "check not built yet (construction in progress, see DESIGN.md section 8)"
 
